@@ -1,8 +1,21 @@
 from pyvc.runner import register_modules
 
-register_modules("C18", "bounded.C18_api")
-LEVEL = "exploration"
+register_modules("C18", "contracts.C18_machine", "bounded.C18_api")
+LEVEL = "other"
+EXPLANATION = ("(VC, z3) the real State.is_within (loop invariant + variant), State.enter, State.leave (recursive, used through their own "
+               "contracts) and StateMachine._perform_transition for ANY hierarchy of states: the State objects are a heap region of "
+               "symbolic size (struct of arrays, parent links acyclic by a decreasing ghost depth), 'ancestor-or-self' is the closure of "
+               "the parent links (fixpoint equation + three lemmas proved by induction on the depth: closed, transitive, depth-monotone). "
+               "Proved: a request with an unknown name or from a state that is not a source raises and changes nothing; an allowed one ends in "
+               "exactly the destination, preserves 'active = current state and its ancestors', fires 'leave' exactly once on every state "
+               "exited, 'enter' exactly once on every state entered and 'called' once.  StateMachine.transition: first entry with the name "
+               "(tables of 0..4).  (FD) the assumptions on the region (parent assigned only in State.__init__), the three shipped machines "
+               "(all steps), lock discipline.  (BND) generated machines with re-entrant handlers, concurrent triggers.")
 ASSUMPTIONS = [
+    "event handlers are call-outs assumed not to touch the machine (StateEventsFire / TransitionEventsFire); handlers that request transitions themselves are covered by the bounded pass only",
+    "the induction schema for the three reach lemmas (strong induction on the ghost depth) is applied outside the solver; base/step are discharged by z3 (unit ReachLemmas)",
+    "valid_tree (acyclic parent links inside the region) is a pre-condition justified by construction: FD obligation parent-link-assigned-only-in-State.__init__",
+    "logging calls and the exception message text are not part of the contract (A-LOG)",
     "reference semantics of hierarchical machines as stated in bounded/C18_api.py (from the property statement)",
     "generated machines are a seeded sample; only the three shipped machines are enumerated exhaustively",
     "known finding D18: no mutual exclusion between concurrent triggers (recorded, not repaired: a lock around _perform_transition would block the dispatcher thread behind a handler that waits for a reply, see DESIGN.md)",
